@@ -475,3 +475,71 @@ func H_pluralCases(v int) {
 	verifAssert(err == nil, "C11: render of an extractable plural message with its identity catalogue failed")
 	verifAssert(got == plain, "C11: identity translation of a plural message does not render the source text")
 }
+
+// H_catalogueTr: the catalogue of H_catalogue with some forms really translated (marked by a
+// prefix) and the others repeating their source text: bit 0 of mask the singular form of the plural
+// message, bit 1 its other form, bit 2 the plain message "Hello". Loaded through newBundle. Every
+// form renders what its catalogue entry says: the marked text where it is translated, the source
+// text where it is not, for n = 1 and n = 5.
+func H_catalogueTr(mask, n int) {
+	src := "{namespace n}\n" + c11Doc + "{template .t}\n" +
+		"[{msg desc=\"p\"}{plural $n}{case 1}one {$b}{default}{$n} of {$b}{/plural}{/msg}]" +
+		"[{msg desc=\"q\"}Hello {$b}!{/msg}]{$l}{$a}{$c}{$x_1}\n{/template}\n"
+	reg, tofu := c11Registry(src)
+	dm := c11DataFlat()
+	dm["n"] = data.Int(int64(n))
+	plain, perr := c11Render(tofu, "n.t", dm, nil)
+	verifAssert(perr == nil, "harness: render without catalogue failed")
+	var msgs []*ast.MsgNode
+	for _, t := range reg.Templates {
+		c11FindMsgs(t.Node, &msgs)
+	}
+	verifAssert(len(msgs) == 2, "harness: expected two messages")
+	mark := func(bit int, s string) string {
+		if mask&(1<<uint(bit)) != 0 {
+			return "T:" + s
+		}
+		return s
+	}
+	var file po.File
+	for _, node := range msgs {
+		refs := []string{"id=" + strconv.FormatUint(node.ID, 10)}
+		var strs []string
+		if pl, ok := node.Body.Children()[0].(*ast.MsgPluralNode); ok {
+			refs = append(refs, "var="+pl.VarName)
+			strs = []string{mark(0, Msgid(node)), mark(1, MsgidPlural(node))}
+		} else {
+			strs = []string{mark(2, Msgid(node))}
+		}
+		file.Messages = append(file.Messages, po.Message{Comment: po.Comment{References: refs},
+			Id: Msgid(node), IdPlural: MsgidPlural(node), Str: strs})
+	}
+	file.Pluralize = func(n int) int {
+		if n == 1 {
+			return 0
+		}
+		return 1
+	}
+	b, err := newBundle("it", file)
+	verifAssert(err == nil && b != nil, "C11: catalogue does not load")
+	got, rerr := c11Render(tofu, "n.t", dm, b)
+	verifObserve("translated", got)
+	verifAssert(rerr == nil, "C11: render with the catalogue failed")
+	// expected: the source render with the mark in front of every translated form in use
+	want, seg := "", 0
+	for i := 0; i < len(plain); i++ {
+		want += plain[i : i+1]
+		if plain[i] == '[' {
+			switch {
+			case seg == 0 && n == 1:
+				want += mark(0, "")
+			case seg == 0:
+				want += mark(1, "")
+			case seg == 1:
+				want += mark(2, "")
+			}
+			seg++
+		}
+	}
+	verifAssert(got == want, "C11: a catalogue entry is not rendered as the catalogue says (translated form lost or source form altered)")
+}
